@@ -429,6 +429,27 @@ theorem never_refuses_own_file_partial {M} (c : Codec M) (maxSize : Nat)
   · rw [h]; left; exact decode_encode c maxSize oldS hold
   · rw [h, hchunks]; right; exact decode_encode c maxSize newS hnew
 
+/-- the same with the bound of the code as it is spelled out: `decodeState` reads with
+    protodelim's default `MaxSize` = 4 MiB = 4194304 bytes, so the hypothesis is "every
+    record of the old and of the new state is at most 4194304 bytes long" — exactly the
+    complement of finding F9 (class `oversize-record-over-4MiB`). -/
+theorem never_refuses_own_file_partial_4MiB {M} (c : Codec M)
+    (target tmp : String) (trunc : Bool) (oldS newS : List M) (chunks : List Bytes)
+    (hcodec : ∀ m ∈ oldS ++ newS, c.decodeMsg (c.encodeMsg (c.pre m)) = some (c.pre m) ∧ c.valid (c.pre m) = true ∧
+      c.post (c.pre m) = m)
+    (hsize : ∀ m ∈ oldS ++ newS, (c.encodeMsg (c.pre m)).length ≤ 4194304)
+    (hchunks : chunks.flatten = encodeState c newS)
+    (hne : tmp ≠ target) (i j m : Nat) :
+    match crashRead (run (initial target (some (encodeState c oldS)))
+            ((snapshotOps tmp trunc target chunks).take i)) j m target with
+    | none => False
+    | some bytes => decodeState c 4194304 bytes = .ok oldS ∨ decodeState c 4194304 bytes = .ok newS := by
+  have good : ∀ m ∈ oldS ++ newS, Good c 4194304 m := fun m hm =>
+    { codec := (hcodec m hm).1, valid := (hcodec m hm).2.1, post := (hcodec m hm).2.2, size := hsize m hm,
+      u64 := Nat.lt_of_le_of_lt (hsize m hm) (by decide) }
+  exact never_refuses_own_file_partial c 4194304 target tmp trunc oldS newS chunks
+    (fun m hm => good m (by simp [hm])) (fun m hm => good m (by simp [hm])) hchunks hne i j m
+
 /-- first start: no file, or the complete new state -/
 theorem never_refuses_first_snapshot {M} (c : Codec M) (maxSize : Nat)
     (target tmp : String) (trunc : Bool) (newS : List M) (chunks : List Bytes)
